@@ -1,8 +1,8 @@
 (* C18 - laws of the ranking-function operations, for every table (any signature length, any rank values). *)
 From InfOCF Require Import Core Form Model Ocf ThmOcf.
 From Coq Require Import Sorted.
-From InfOCF Require Import PyLib TieOcf.
-From InfOCFGen Require Import SrcOcf SrcOcfCustom.
+From InfOCF Require Import PyLib TieOcf TieTpo.
+From InfOCFGen Require Import SrcOcf SrcOcfCustom SrcTpo.
 From Coq Require Import ZArith.
 
 (* the rank of a formula is the least rank of its models ... *)
@@ -74,6 +74,25 @@ Theorem C18_source_conditionalisation_is_model : forall n (t:table), NoDup (map 
   = Return (map (fun p => (fst p, option_map Z.of_nat (snd p))) (conditionalize t f)).
 Proof. exact tie_conditionalize_existing. Qed.
 Print Assumptions C18_source_conditionalisation_is_model.
+
+(* ranks2tpo, tpo2ranks and is_ocf are GENERATED too (coq/gen/SrcTpo.v).  For every table with distinct worlds ranks2tpo returns the
+   model's layers - the rank classes in ascending order of rank, each in table order (unranked worlds in none) - so the laws
+   C18_tpo_* above hold of what the code returns; tpo2ranks gives every world of a total preorder with pairwise distinct worlds
+   the rank its layer's index is mapped to, in layer order; is_ocf holds exactly when every world has a non-negative rank. *)
+Theorem C18_source_ranks2tpo_is_model : forall n (t:table), NoDup (map fst t) -> py_ranks2tpo n (zt_of t) = Return (ranks2tpo t).
+Proof. exact tie_ranks2tpo. Qed.
+Print Assumptions C18_source_ranks2tpo_is_model.
+Theorem C18_source_tpo2ranks_is_model : forall n rf fn, (forall i, rf (Z.of_nat i) = Return (Z.of_nat (fn i))) ->
+  forall tpo, NoDup (concat tpo) -> py_tpo2ranks n tpo rf = Return (ztab (tpo2ranks tpo fn)).
+Proof. exact tie_tpo2ranks. Qed.
+Print Assumptions C18_source_tpo2ranks_is_model.
+Theorem C18_source_is_ocf_exact : forall n (d:wdict (option BinNums.Z)), NoDup (map fst d) -> py_PreOCF_is_ocf n d = Return (forallb nonneg d).
+Proof. exact tie_is_ocf. Qed.
+Print Assumptions C18_source_is_ocf_exact.
+Example tpo_source_example : py_ranks2tpo 2 (zt_of t2) = Return [[[false;false]]; [[true;false]]; [[false;true];[true;true]]]
+  /\ py_tpo2ranks 2 [[[false;false]]; [[true;false]]] (fun i => Return (2 * i)%Z) = Return [([false;false], Some 0%Z); ([true;false], Some 2%Z)]
+  /\ py_PreOCF_is_ocf 2 (zt_of t2) = Return true /\ py_PreOCF_is_ocf 2 [([true], Some (-1)%Z)] = Return false.
+Proof. vm_compute. repeat split. Qed.
 
 Example ocf_example : frank t2 (FVar 1) = Some 3 /\ frank t2 (FAnd (FVar 0) (FNot (FVar 0))) = None
   /\ marginalize [0] t2 = [([false], Some 0); ([true], Some 3)]
